@@ -43,6 +43,7 @@ func runC03(c *Ctx) {
 	ruleReplayUnconditional(c, "C03.21")
 	ruleNoLoopVarCapture(c, "C03.22", "storage", "engine")
 	ruleRawReadOnBuffer(c, "C03.23", "storage.(*WALEntry).decode")
+	ruleLSNMonotone(c, "C03.24")
 	ruleErrorsNotDropped(c, "C03.11", "storage.(*BTree).insert", "storage.(*RelationService).Insert")
 }
 
